@@ -576,7 +576,10 @@ def stabilizer_measure(gs_stb, ps_stb, gs_obs, ps_obs, r):
         p = 0 # pointer
         ga[:] = 0
         pa = 0
-        for j in range(2*N):
+        for i in range(2*N):
+            # scan active stabilizers [r,N) first, then standby stabilizers [0,r), then destabilizers,
+            # so that a standby row becomes the pivot only if no active stabilizer anticommutes
+            j = i + r if i < N - r else (i - (N - r) if i < N else i)
             if acq(gs_stb[j], gs_obs[k]): # find gs_stb[j] anticommute with gs_obs[k]
                 if update: # if gs_stb[j] is not the first anticommuting operator
                     # update gs_stb[j] to commute with gs_obs[k]
